@@ -472,6 +472,30 @@ impl KeyStats {
         let e = g.entry(key.to_string()).or_insert((0, what.chars().take(400).collect()));
         e.0 += 1;
     }
+    /// Record a violation, but hand at most `max` cases per key to the Run (the evidence writer keeps 2000 violations in
+    /// total; without this a single frequent finding would crowd out rarer ones). All cases are counted, see `finish`.
+    pub fn violation(&self, run: &crate::Run, max: u64, key: String, what: String, case: Value) {
+        let n = {
+            let mut g = self.0.lock().unwrap_or_else(|e| e.into_inner());
+            let e = g.entry(key.clone()).or_insert((0, what.chars().take(400).collect()));
+            e.0 += 1;
+            e.0
+        };
+        if n <= max {
+            run.violation(key, what, case);
+        }
+    }
+
+    /// Write the per-key case counts into the evidence (`violation_cases_per_key`) and print them with VERIF_DEBUG.
+    pub fn finish(&self, run: &crate::Run, title: &str) {
+        let m: serde_json::Map<String, Value> = {
+            let g = self.0.lock().unwrap_or_else(|e| e.into_inner());
+            g.iter().map(|(k, v)| (k.clone(), json!(v.0))).collect()
+        };
+        run.extra("violation_cases_per_key", Value::Object(m));
+        self.dump(title);
+    }
+
     pub fn dump(&self, title: &str) {
         if std::env::var("VERIF_DEBUG").is_err() {
             return;
